@@ -7,11 +7,12 @@ PROPS = {
             fam("c04.parse", 4000, 40000),
             fam("c04.textmatch", 3000, 25000),
             fam("c04.perm", 1000, 8000),
+            fam("c04.units", 4000, 30000),
         ],
         "defects": ["D3"],
         "rule": "op lines generated from VERIF_SEED: c04.match = rule from the modifier grammar x request aimed at its values "
                 "(Go Match vs model vs spec from the modifier values); c04.parse = NewNetworkRule field dump vs the parser model on grammar, "
-                "byte-mutated and real-list texts; c04.textmatch = Go parse+Match vs specMatch(parse model(text)); c04.perm = Go-only assert: permuting the values inside every list-valued modifier changes neither the parse outcome, the sorted fields nor Match on 12 aimed requests; distinct by hash of the op "
+                "byte-mutated and real-list texts; c04.textmatch = Go parse+Match vs specMatch(parse model(text)); c04.units = IsDomainName / splitWithEscapeCharacter / parseRuleText / findShortcut one by one against their models on boundary-aimed inputs (labels of 62-64 bytes, xn-- prefixes, 252-254 byte names, escapes); c04.perm = Go-only assert: permuting the values inside every list-valued modifier changes neither the parse outcome, the sorted fields nor Match on 12 aimed requests; distinct by hash of the op "
                 "input; non-trivial = the answer is not F/err/none and the input is in the model's domain",
     },
     "C12": {
